@@ -264,6 +264,12 @@ theorem transform_collider_conj (t : Xf K) (hv : t.Valid) (ha : t.Affine) (o d :
   show t.apply ((t.inverse.apply o).add ((t.inverse.lin d).scale k)) = o.add (d.scale k)
   rw [Xf.apply_add t ha, Xf.apply_inverse t hv, Xf.lin_scale t ha, Xf.lin_lin_inverse t hv ha]
 
+/-- Why the pre-repair code (commit before `170d74d`) failed: it applied the *whole* inverse transform to the direction.
+For the translation by (5,0,0) that maps the direction (1,0,0) to (−4,0,0); the linear part leaves it (1,0,0). -/
+example : (Xf.translate (⟨5, 0, 0⟩ : V3 ℚ)).inverse.apply ⟨1, 0, 0⟩ = ⟨-4, 0, 0⟩ ∧
+    (Xf.translate (⟨5, 0, 0⟩ : V3 ℚ)).inverse.lin ⟨1, 0, 0⟩ = ⟨1, 0, 0⟩ := by
+  constructor <;> ext <;> norm_num [Xf.inverse, Xf.apply, Xf.lin, V3.add, V3.sub, V3.scale, V3.zero]
+
 /-- **The collisions reported are those of the wrapped collider on the inner ray, with the same parameter**, the
 same count and `Extra`, and normal = the normalised image of the original normal under the linear part; a nil
 callback is not called (no panic) and yields the same count. -/
@@ -326,5 +332,28 @@ theorem transform_collider_sphere (t : Xf K) (h : t.DistValid) (c : Collider K) 
 theorem transform_collider_bounds (t : Xf K) (h : t.DistValid) (c : Collider K) (p : V3 K) (hp : Box c.lo c.hi p) :
     Box (tcBounds t c).1 (tcBounds t c).2 (t.apply p) :=
   Xf.applyBounds_encloses t (Xf.valid_boundsOK t (Xf.distValid_valid t h)) _ _ _ hp
+
+/-! ## toolbox3d.AxisPinch (as far as it is algebraic: `math.Pow(·, Power)` is the parameter `powF`) -/
+
+/-- **`AxisPinch.Inverse().Apply(AxisPinch.Apply(c)) = c`** whenever the two power functions (`t ↦ t^p`, `t ↦ t^(1/p)`)
+undo each other on `[0,1]`, map `[0,1]` into itself and vanish only at 0 (`PowLike`), and `Min < Max`.
+Applied with the roles swapped it is the other order.  (The correspondence runs `p ∈ {2, 1/2, 1}`.) -/
+theorem pinch_inverse (powF powG : K → K) (hp : PowLike powF) (hg : ∀ u, 0 ≤ u → u ≤ 1 → powG (powF u) = u)
+    (a : Pinch K) (h : a.lo < a.hi) (c : V3 K) : a.apply powG (a.apply powF c) = c := by
+  rw [Pinch.apply_eq, Pinch.apply_eq, V3.get_set, V3.set_set, pinch1_inv powF powG hp hg _ _ _ h, V3.set_get]
+
+/-- **`AxisPinch.ApplyBounds` encloses the image of the box** for a monotone power function. -/
+theorem pinch_bounds_encloses (powF : K → K) (hp : PowLike powF)
+    (hm : ∀ u w, 0 ≤ u → u ≤ w → w ≤ 1 → powF u ≤ powF w) (a : Pinch K) (h : a.lo < a.hi)
+    (lo hi p : V3 K) (hb : Box lo hi p) :
+    Box (a.applyBounds powF lo hi).1 (a.applyBounds powF lo hi).2 (a.apply powF p) := by
+  have hg := hb.get_axis a.axis
+  simp only [Pinch.applyBounds, Pinch.apply_eq]
+  exact hb.set_axis a.axis (pinch1_mono powF hp hm _ _ h hg.1) (pinch1_mono powF hp hm _ _ h hg.2)
+
+/-- non-vacuity: squaring is `PowLike` and monotone on `[0,1]` over any ordered field -/
+example : PowLike (fun t : K => t * t) ∧ ∀ u w : K, 0 ≤ u → u ≤ w → w ≤ 1 → u * u ≤ w * w :=
+  ⟨fun u h0 h1 => ⟨mul_nonneg h0 h0, by nlinarith, fun h => mul_pos h h⟩,
+   fun u w h0 h1 _ => mul_le_mul h1 h1 h0 (le_trans h0 h1)⟩
 
 end M3d.C05
